@@ -12,49 +12,45 @@ structure CMergeSpec (T : Tun) (hra : Bool) (h : Nat) (c o m : Compactor ρ) : P
   ent : m.entered = o.entered ++ c.entered
   cnt : ∀ p, cntP p m.items = cntP p c.items + cntP p o.items
 
+theorem sortedItems_sorted {T : Tun} {hra : Bool} {h : Nat} {c : Compactor ρ} (hc : CInv T hra h c) : Sorted c.sortedItems := by
+  unfold Compactor.sortedItems; split
+  · rename_i hs; exact hc.srt (Or.inr hs)
+  · exact sorted_sortInts _
+
+theorem sortedItems_cnt (p : Int → Bool) (c : Compactor ρ) : cntP p c.sortedItems = cntP p c.items := by
+  unfold Compactor.sortedItems; split <;> simp [cntP_sortInts]
+
+theorem mergeItems_cnt (p : Int → Bool) (hra : Bool) (mine theirs : List Int) :
+    cntP p (mergeItems hra mine theirs) = cntP p mine + cntP p theirs := by
+  unfold mergeItems; split
+  · rename_i hemp; rw [List.isEmpty_iff] at hemp; rw [hemp]; simp
+  · split <;> rw [cntP_mergeRuns] <;> omega
+
+theorem mergeItems_sorted (hra : Bool) (mine theirs : List Int) (hm : Sorted mine) (ht : Sorted theirs) :
+    Sorted (mergeItems hra mine theirs) := by
+  unfold mergeItems; split
+  · exact ht
+  · split
+    · exact sorted_mergeRuns _ _ ht hm
+    · exact sorted_mergeRuns _ _ hm ht
+
 theorem cmerge_spec {T : Tun} (hT : TunOK T) (F : SecFns ρ) {hra : Bool} {h : Nat} {c o : Compactor ρ}
     (hc : CInv T hra h c) (ho : CInv T hra h o) : CMergeSpec T hra h c o (c.merge T F o) := by
-  have hc1 : CInv T hra h ({ c with state := c.state ||| o.state } : Compactor ρ) := ⟨hc.lg, hc.hraEq, hc.ns, hc.ss, hc.srt⟩
-  have hc2 := ensureLoop_CInv hT F (({ c with state := c.state ||| o.state } : Compactor ρ).state + 2) hc1
-  have e := ensureLoop_items T F (({ c with state := c.state ||| o.state } : Compactor ρ).state + 2) ({ c with state := c.state ||| o.state } : Compactor ρ)
+  have hc1 : CInv T hra h (c.orState o) := ⟨hc.lg, hc.hraEq, hc.ns, hc.ss, hc.srt⟩
+  have hc2 := ensureLoop_CInv hT F ((c.orState o).state + 2) hc1
+  have e := ensureLoop_items T F ((c.orState o).state + 2) (c.orState o)
   simp only [Compactor.merge]
-  generalize Compactor.ensureLoop T F (({ c with state := c.state ||| o.state } : Compactor ρ).state + 2) ({ c with state := c.state ||| o.state } : Compactor ρ) = c2 at hc2 e
+  generalize Compactor.ensureLoop T F ((c.orState o).state + 2) (c.orState o) = c2 at hc2 e
   obtain ⟨e1, e2, e3, e4, e5, e6, e7, e8⟩ := e
-  simp only at e1 e4 e7
-  have hmine : Sorted (if c2.sorted = true then c2.items else sortInts c2.items) := by
-    split
-    · rename_i hs; exact hc2.srt (Or.inr hs)
-    · exact sorted_sortInts _
-  have htheirs : Sorted (if o.sorted = true then o.items else sortInts o.items) := by
-    split
-    · rename_i hs; exact ho.srt (Or.inr hs)
-    · exact sorted_sortInts _
-  have cm : ∀ p, cntP p (if c2.sorted = true then c2.items else sortInts c2.items) = cntP p c.items := by
-    intro p; split <;> simp [cntP_sortInts, e1]
-  have ct : ∀ p, cntP p (if o.sorted = true then o.items else sortInts o.items) = cntP p o.items := by
-    intro p; split <;> simp [cntP_sortInts]
-  generalize (if c2.sorted = true then c2.items else sortInts c2.items) = mine at hmine cm
-  generalize (if o.sorted = true then o.items else sortInts o.items) = theirs at htheirs ct
-  have hcnt : ∀ p, cntP p (if mine.isEmpty = true then theirs
-      else if c2.hra = true then mergeRuns theirs mine else mergeRuns mine theirs)
-      = cntP p c.items + cntP p o.items := by
-    intro p
-    split
-    · rename_i hemp
-      have : cntP p c.items = 0 := by
-        rw [← cm p]; rw [List.isEmpty_iff] at hemp; rw [hemp]; rfl
-      rw [ct, this]; omega
-    · split <;> rw [cntP_mergeRuns, cm, ct] <;> omega
+  have e1' : c2.items = c.items := e1
+  have e7' : c2.entered = c.entered := e7
+  have hcnt : ∀ p, cntP p (mergeItems c2.hra c2.sortedItems o.sortedItems) = cntP p c.items + cntP p o.items := by
+    intro p; rw [mergeItems_cnt, sortedItems_cnt, sortedItems_cnt, e1']
   refine ⟨⟨hc2.lg, hc2.hraEq, hc2.ns, hc2.ss, fun _ => ?_⟩, ?_, ?_, hcnt⟩
-  · show Sorted (if mine.isEmpty = true then theirs else if c2.hra = true then mergeRuns theirs mine else mergeRuns mine theirs)
-    split
-    · exact htheirs
-    · split
-      · exact sorted_mergeRuns _ _ htheirs hmine
-      · exact sorted_mergeRuns _ _ hmine htheirs
+  · exact mergeItems_sorted _ _ _ (sortedItems_sorted hc2) (sortedItems_sorted ho)
   · have := hcnt (fun _ => true); simpa [cntP_true] using this
   · show o.entered ++ c2.entered = o.entered ++ c.entered
-    rw [e7]
+    rw [e7']
 
 /-! ### level-wise merge -/
 
